@@ -441,7 +441,25 @@ const DOCUMENTED: &[(&str, &str)] = &[
     ("Bin", "0b10"), ("Float", "1.5"), ("Bool", "true"), ("Bool", "false"), ("Error", "@"),
 ];
 
+/// the documented shape of number literals: where a literal ends (Lean: `documented_float_shape`)
+const DOCUMENTED_SPLITS: &[(&str, &str)] = &[
+    ("1.5e3", "Float"), ("1.5e+3", "Float"), ("1_0.2_5e1_0", "Float"), ("1.5e_", "Float,Ident"),
+    ("1.5e_3", "Float,Ident"), (".1e_", "Float,Ident"), ("1.5e+_", "Float,Ident,Plus,Ident"), ("1.5e", "Float,Ident"),
+    ("1.5E_x", "Float,Ident"), ("2.0e-_k", "Float,Ident,Hyphen,Ident"),
+];
+
 fn check_documented(rep: &mut Report) {
+    for (text, kinds) in DOCUMENTED_SPLITS {
+        rep.case(Some(format!("documented-split|{text}")));
+        rep.hit("documented-number-shape");
+        let got = match impl_lex(text) {
+            Ok(o) => o.kinds.join(","),
+            Err(p) => format!("PANIC {p}"),
+        };
+        if got != *kinds {
+            rep.oracle_fail("documented-number-shape", input_json(text), json!(got), json!(kinds), "a number literal does not end where the documented shape of the literal ends");
+        }
+    }
     for (kind, text) in DOCUMENTED {
         rep.case(Some(format!("documented|{kind}")));
         rep.hit("documented-spelling");
